@@ -94,6 +94,7 @@ def r14_1(ctx, g):
             return
         raise AnalysisError("R14.1", pe.where(), "cannot find the step table of the walk check")
     tbl = {}
+    nt_fields = None
     for k, v in zip(cases.value.keys, cases.value.values):
         kk = tuple(const_value(e) for e in k.elts) if isinstance(k, ast.Tuple) else None
         vv = tuple(const_value(e) for e in v.elts) if isinstance(v, ast.Tuple) else None
@@ -106,7 +107,31 @@ def r14_1(ctx, g):
                 vals.update({k_.arg: k_.value for k_ in v.keywords if k_.arg})
                 if all(f_ in vals for f_ in flds):
                     vv = tuple(const_value(vals[f_]) for f_ in flds)
+                    nt_fields = list(flds)
         tbl[kk] = vv
+    if tbl and all(v_ is not None and len(v_) == 2 and isinstance(v_[0], int) and isinstance(v_[1], str) for v_ in tbl.values()):
+        # rows written (far side, adjacency-set name) instead of (name, far side) — e.g. a record type whose fields were
+        # declared in that order: read by role.  The row variable's [0] / [1] are exchanged so that the use check below
+        # sees the canonical order.
+        cname0 = norm(cases.targets[0])
+        row_vars = {st_.targets[0].id for st_ in walk_own(pe.node) if isinstance(st_, ast.Assign) and len(st_.targets) == 1 and isinstance(st_.targets[0], ast.Name) and ((isinstance(st_.value, ast.Subscript) and norm(st_.value.value) == cname0) or (isinstance(st_.value, ast.Call) and isinstance(st_.value.func, ast.Attribute) and st_.value.func.attr == "get" and norm(st_.value.func.value) == cname0))}
+        if row_vars:
+            tbl = {k_: (v_[1], v_[0]) for k_, v_ in tbl.items()}
+            import copy as _cp
+
+            class _F(ast.NodeTransformer):
+                def visit_Subscript(self, n_):
+                    self.generic_visit(n_)
+                    if isinstance(n_.value, ast.Name) and n_.value.id in row_vars and isinstance(n_.slice, ast.Constant) and n_.slice.value in (0, 1):
+                        return ast.copy_location(ast.Subscript(value=n_.value, slice=ast.Constant(value=1 - n_.slice.value), ctx=n_.ctx), n_)
+                    return n_
+
+            body2 = [ast.fix_missing_locations(_F().visit(_cp.deepcopy(st_))) if isinstance(st_, ast.For) else st_ for st_ in pe.node.body]
+            pe_node2 = _cp.copy(pe.node)
+            pe_node2.body = body2
+            from ..core import Func as _Func
+
+            pe = _Func(pe.module, pe.qualname, pe_node2, pe.cls, pe.parent)
     to_dir = {">": "+", "<": "-"}
     bad = None
     for s1 in (">", "<"):
@@ -360,7 +385,7 @@ def r14_2_3(ctx, g):
                 bad = (p, f"'>' step appends `{a}`")
         elif rev:
             seen.add("<")
-            ok = isinstance(apps[0].args[0], ast.Call) and repo.resolve_call(ep, apps[0].args[0]) is not None and repo.resolve_call(ep, apps[0].args[0]).name == "rev_comp" and norm(res_(apps[0].args[0].args[0])) in (f"self.nodes[{n}[1:]].seq", f"self[{n}[1:]].seq")
+            ok = isinstance(apps[0].args[0], ast.Call) and repo.resolve_call(ep, apps[0].args[0]) is not None and (repo.resolve_call(ep, apps[0].args[0]).name == "rev_comp" or _is_revcomp(repo, repo.resolve_call(ep, apps[0].args[0]))) and norm(res_(apps[0].args[0].args[0])) in (f"self.nodes[{n}[1:]].seq", f"self[{n}[1:]].seq")
             if not ok:
                 bad = (p, f"'<' step appends `{a}`")
         else:
@@ -371,9 +396,18 @@ def r14_2_3(ctx, g):
     ctx.check(bad is None and seen == {">", "<"}, "R14.2", ep.where(loop), "each step appends exactly one piece: the node's sequence for '>', rev_comp of it for '<'", key_of(ep, f"spelling:{bad[1] if bad else ''}"), **({"path": bad[0].show(), "why": bad[1]} if bad else {}))
     # complement table
     um = repo.module("gaftools.utils", "R14.2")
-    rc = repo.func("gaftools.utils", "rev_comp", "R14.2")
+    # by role: the translation table is the module-level str.maketrans(...) of the utilities; the reverse-complement function is
+    # the one-parameter function of that module that translates its argument with it (whatever the two are called)
+    tabs = [k_ for k_, v_ in um.consts.items() if isinstance(v_, ast.Call) and norm(v_.func) == "str.maketrans"]
+    tname = "complement" if "complement" in tabs else (tabs[0] if len(tabs) == 1 else "complement")
+    rc = um.funcs.get("rev_comp")
+    if rc is None:
+        cands_ = [f_ for f_ in um.funcs.values() if f_.cls is None and len(f_.params) == 1 and any(isinstance(c_, ast.Call) and isinstance(c_.func, ast.Attribute) and c_.func.attr == "translate" and c_.args and norm(c_.args[0]) == tname for c_ in walk_own(f_.node))]
+        if len(cands_) != 1:
+            raise AnalysisError("R14.2", um.relpath, "function rev_comp not found (anchor vanished)")
+        rc = cands_[0]
     ctx.analysed_func(rc)
-    comp = um.consts.get("complement")
+    comp = um.consts.get(tname)
     ok_tab = False
     pairs = {}
     if isinstance(comp, ast.Call) and norm(comp.func) == "str.maketrans" and len(comp.args) == 2:
@@ -387,7 +421,7 @@ def r14_2_3(ctx, g):
     ret = [r for r in walk_own(rc.node) if isinstance(r, ast.Return)]
     src = resolve_expr(rc.node, ret[0].value) if ret else ""
     p0 = rc.params[0]
-    ok_rc = src in (f"{p0}[::-1].translate(complement)", f"{p0}.translate(complement)[::-1]")
+    ok_rc = src in (f"{p0}[::-1].translate({tname})", f"{p0}.translate({tname})[::-1]")
     ctx.check(ok_rc, "R14.2", rc.where(), "rev_comp reverses the sequence and complements every base", key_of(rc, f"rev_comp:{src}"), expr=src)
     # R14.3: returns and dominance
     rets = [r for r in walk_own(ep.node) if isinstance(r, ast.Return)]
@@ -402,6 +436,13 @@ def r14_2_3(ctx, g):
     ctx.check(ok_dom, "R14.3", ep.where(), "the walk check dominates the concatenation: a path that is not a walk returns the empty sequence before anything is spelled", key_of(ep, "walk-check-dominates"))
     # tokenisation
     # tokenisation: R14.5 (shared.path_tokenisers) decides it on the parsed regular expression
+
+
+def _is_revcomp(repo, fn):
+    """the reverse-complement function of the utilities by role: one parameter, returns it reversed and translated"""
+    if fn is None or fn.module.name != "gaftools.utils" or len(fn.params) != 1:
+        return False
+    return any(isinstance(c_, ast.Call) and isinstance(c_.func, ast.Attribute) and c_.func.attr == "translate" for c_ in walk_own(fn.node)) and "[::-1]" in norm(fn.node)
 
 
 def r14_4(ctx):
@@ -520,6 +561,16 @@ def r14_4(ctx):
     ctx.check(bad is None, "R14.4", run.where(loop), "every line of the path file adds exactly one path and the sequence extracted for that same path (no line skipped or merged)", key_of(run, f"per-line:{bad[1] if bad else ''}"), **({"path": bad[0].show(), "why": bad[1]} if bad else {}))
     if bad is not None:
         return
+    # ---- (a') between reading the paths and writing the records the command does not leave: a `return` there (no path could
+    # be spelled, nothing to report) means that for some inputs no record is written at all
+    from .c09 import guards_of as _gof14
+
+    for r_ in walk_own(run.node):
+        if isinstance(r_, ast.Return) and run.before(loop, r_) and not any(y_ is r_ for y_ in ast.walk(loop)):
+            later_out = [l_ for l_ in walk_own(run.node) if isinstance(l_, ast.For) and l_ is not loop and run.before(r_, l_) and any(isinstance(c_, ast.Call) and ((isinstance(c_.func, ast.Name) and c_.func.id == "print") or (isinstance(c_.func, ast.Attribute) and c_.func.attr == "write")) for c_ in ast.walk(l_))]
+            if later_out:
+                gs_ = [norm(t_) for t_, _p in _gof14(run.node, r_)]
+                ctx.violated("R14.4", run.where(r_), "find_path returns before its output loops" + (f" when `{gs_[0][:50]}`" if gs_ else "") + ": for those inputs no record is written — a path that is not a walk still gets its (empty) record, in its place, so that record i belongs to path i", key_of(run, f"return-before-output:{gs_[0][:40] if gs_ else ''}"))
     # ---- (b) the output loops
     plist = next((k for k, v in lists.items() if v == "path"), None)
     slist = next((k for k, v in lists.items() if v == "seq"), None)
